@@ -45,14 +45,20 @@ META = {
     'design_ref': '§5 C11, §4 M1, §6.3, §6.4',
     'level_text': 'Machine-checked for every reachable state of the run model (serial, thread, process; any number of '
                   'workers, any interleaving): the dispatcher schedules the setup-tasks of a task only while that task\'s '
-                  'run_status is "run" (never for an up-to-date, ignored or unmet task) and a setup-task reports success / '
+                  'run_status is "run" (never for an up-to-date, ignored or unmet task), the trace monitor monLazy holds on every '
+                  'model trace (every touched task is justified), and a setup-task reports success / '
                   'up-to-date before its parent starts; at the end of every run that reaches finish() the teardown '
                   'executions are exactly Runner.teardown over the tasks with teardown in start order (reverse order, '
                   'once each, a failing one does not remove the others) -- shared list for serial/thread, per worker '
                   'process for -n k (full strength since the repair of the finding process-teardown-failure made by this '
                   'check; the behaviour before it and the pinned thread behaviour are kept as counterexample theorems).',
-    'level_note': 'The trace form of laziness (monLazy) is monitored on the implementation but not proved of the model '
-                  '(def C11_lazy_monitor_full); the state form is proved.  Trusted: Lean kernel; '
+    'level_note': 'The laziness monitor monLazy is proved of the model (C11_lazy_monitor) under the decidable hypothesis '
+                  'Bounded inp nTasks (all task names below the monitor\'s parameter, and a task without actions delivers '
+                  'nothing after a failed execution; evaluated on every case: hyp:bounded); deliveries of calc tasks that '
+                  'failed after returning values (calcResFail) are part of the monitor and of the theorem; '
+                  'for arbitrary nTasks the statement is false (C11_lazy_monitor_full_counterexample: the parameter is also '
+                  'the fuel of the monitor\'s closure; an artefact of the monitor, replayed on the real doit).  '
+                  'Trusted: Lean kernel; '
                   'doitdrv; the Python harness (generator, recording reporter, instrumented teardown actions, deterministic '
                   'scheduler, token controller).  Monitors: Lean (driver) with a Python cross-check.',
     'rule': 'random DAGs of 3-8 tasks biased to setup / getargs edges with shared and nested setup-tasks, teardown on ~60% '
@@ -62,7 +68,8 @@ META = {
             'with teardown -- tasks created at run time reach worker processes as whole pickled Task objects -- under '
             'serial / thread / process k=1..3 (teardown monitors only; K skipped: delayed creation is not in M1); tasks with '
             'equal explicit `setup` get ONE list object in the namespace, and a structured family has several tasks '
-            'sharing a setup list with a getargs task, selections without the getargs task; exhaustive tier: every DAG on <=3 tasks with task_dep/setup edges x every completion '
+            'sharing a setup list with a getargs task, selections without the getargs task; another one a task with '
+            'calc_deps + task_deps + setup-tasks (woken several times before it is stepped again); exhaustive tier: every DAG on <=3 tasks with task_dep/setup edges x every completion '
             'order with 2 worker threads (thorough: <=4 tasks); non-trivial = a setup edge or a teardown task in the case and at least one task '
             'reported; distinct = distinct rendered case + schedule',
     'assumptions': ['actions touch only their own targets (granularity assumption of M1 for thread mode)',
@@ -284,12 +291,13 @@ def py_monitor_lazy(case, trace):
     just = set()
     todo = list(sel)
     fin_all = set(e[1] for e in trace if e[0] in ('success', 'skip_uptodate'))
+    failed_run = set(e[1] for e in trace if e[0] == 'failure') & set(e[1] for e in trace if e[0] == 'start')
     while todo:
         t = todo.pop()
         if t in just or not (0 <= t < n):
             continue
         just.add(t)
-        nxt = first_stage_deps(model, t, fin_all)
+        nxt = first_stage_deps(model, t, fin_all, failed_run)
         for d in model['setup'][t]:
             i = _first_mention(trace, d)
             if run_pending(t, len(trace) if i is None else i):
@@ -312,7 +320,7 @@ def py_monitor_lazy(case, trace):
     return res
 
 
-def first_stage_deps(model, t, finished):
+def first_stage_deps(model, t, finished, failed_run=()):
     """dependencies of the first stage of `t` (everything but setup-tasks): task_dep, calc_dep and what the calc_dep
     tasks in `finished` delivered, transitively through delivered calc_deps (model['calcRes'] is non-null only for
     tasks that do deliver when they are executed / found up-to-date)"""
@@ -324,8 +332,14 @@ def first_stage_deps(model, t, finished):
         if c in seen:
             continue
         seen.add(c)
-        cr = model['calcRes'][c]
-        if not cr or c not in finished:
+        if c in finished:
+            cr = model['calcRes'][c]
+        elif c in failed_run:
+            # executed and reported failed: doit still hands over what its actions returned before the failing one
+            cr = (model.get('calcResFail') or [None] * model['n'])[c]
+        else:
+            cr = None
+        if not cr:
             continue
         deps |= set(cr['task']) | set(cr['file']) | set(cr['calc'])
         todo += list(cr['calc'])
@@ -384,8 +398,8 @@ SIGNATURES = {}
 # ======================================================================================================
 
 KNOBS = {'n_min': 3, 'n_max': 8, 'p_teardown': 0.6, 'p_utd': 0.24, 'p_ignored': 0.09, 'p_error': 0.05,
-         'p_failed': 0.12, 'p_exc': 0.06, 'p_dup_sel': 0.05, 'p_shared': 0.6,
-         'weights': {'task_dep': 22, 'setup': 34, 'calc_dep': 8, 'file': 8, 'getargs': 10, 'result_dep': 4,
+         'p_failed': 0.12, 'p_exc': 0.06, 'p_dup_sel': 0.05, 'p_shared': 0.6, 'p_calc_then_fail': 0.1,
+         'weights': {'task_dep': 22, 'setup': 34, 'calc_dep': 14, 'file': 8, 'getargs': 10, 'result_dep': 4,
                      'getargs_setup': 6}}
 
 
@@ -457,6 +471,48 @@ def gen_shared_setup(seed, knobs):
     assert set(names) >= set(sel or [])
     case['model'] = runlib.expand(case)
     decorate(case, rng, 0.15)
+    return case
+
+
+def gen_calc_task_setup(seed, knobs):
+    """structured family: a task with calc_dep(s) + task_dep(s) + setup-task(s) (woken several times before it is
+    stepped again; C01-r4-ready-queue-stale-duplicate), random oracle / extras / runner"""
+    rng = random.Random(seed)
+    T = runlib._new_task
+    calcs = [T('c%d' % i) for i in range(rng.choice([1, 1, 2]))]
+    deps = [T('t%d' % i) for i in range(rng.choice([1, 1, 2]))]
+    sets = [T('s%d' % i) for i in range(rng.choice([1, 1, 2]))]
+    w = T('w')
+    w['calc_dep'] = [c['name'] for c in calcs]
+    w['task_dep'] = [d['name'] for d in deps]
+    w['setup'] = [x['name'] for x in sets]
+    extra = []
+    if rng.random() < 0.4:
+        x = T('x')
+        extra.append(x)
+        calcs[0]['calc_res'] = {'task_dep': ['x'], 'file_dep': [], 'calc_dep': []}
+    if rng.random() < 0.3:
+        g = T('g')
+        extra.append(g)
+        w['getargs'] = [['a0', 'g', 'v']]
+    if rng.random() < 0.3 and len(deps) > 1:
+        deps[1]['task_dep'] = [deps[0]['name']]
+    tasks = calcs + deps + sets + extra + [w]
+    for t in tasks:
+        t['teardown'] = rng.random() < 0.5
+        if t['name'] != 'w' and t['calc_res'] is None and rng.random() < 0.08:
+            t['outcome'] = 'failed'
+        if t['name'][0] in 'ts' and rng.random() < 0.12:
+            t['status'] = 'utd'
+    rng.shuffle(tasks)
+    runner = knobs.get('runner', 'serial')
+    sel = rng.choice([['w'], ['w'], None, ['w', sets[0]['name']], [deps[0]['name'], 'w']])
+    case = {'tasks': tasks, 'sel': sel, 'cont': rng.random() < 0.4, 'always': False, 'runner': runner,
+            'nproc': 0 if runner == 'serial' else rng.randint(1, 3),
+            'policy': runlib.gen_policy(rng, 3) if runner == 'thread' else {'kind': 'seeded', 'seed': rng.randrange(1 << 30)},
+            'family': 'calc_task_setup', 'seed': seed}
+    case['model'] = runlib.expand(case)
+    decorate(case, rng, 0.1)
     return case
 
 
@@ -897,6 +953,8 @@ def judge(case, obs, mixed, base_ans, ans, st, shrink_left):
         st.count('driver_unavailable')
     else:
         lean = ans.get('monitor') or {}
+        for k, v in (ans.get('hyp') or {}).items():
+            st.count('hyp:%s=%s' % (k, v))
     failed = failed_monitors(py, lean)
     used = 0.0
     if failed:
@@ -983,7 +1041,8 @@ def eval_batch(batch):
         triples.append((c, o, mx))
     for seed, knobs in batch.get('gen', []):
         c = gen_delayed(seed, knobs) if knobs.get('delayed') else \
-            gen_shared_setup(seed, knobs) if knobs.get('shared_setup') else gen_case(seed, knobs)
+            gen_shared_setup(seed, knobs) if knobs.get('shared_setup') else \
+            gen_calc_task_setup(seed, knobs) if knobs.get('calc_task_setup') else gen_case(seed, knobs)
         o, mx = observe(c)
         triples.append((c, o, mx))
     for c in batch.get('exhaustive', []):
@@ -1059,6 +1118,8 @@ def plan(ctx, scale=1.0):
         gen.append((rng.randrange(1 << 60), {'delayed': True, 'runner': rng.choice(['serial', 'thread'])}))
     for _ in range(int((60 if quick else 800) * ctx.boost * scale)):
         gen.append((rng.randrange(1 << 60), {'shared_setup': True, 'runner': rng.choice(['serial', 'serial', 'thread'])}))
+    for _ in range(int((50 if quick else 600) * ctx.boost * scale)):
+        gen.append((rng.randrange(1 << 60), {'calc_task_setup': True, 'runner': rng.choice(['serial', 'serial', 'thread'])}))
     rng.shuffle(gen)
     size = 20 if quick else 60
     pool = [{'gen': gen[i:i + size], 'shrink_s': 12.0} for i in range(0, len(gen), size)]
